@@ -216,6 +216,46 @@ def body_same_batch(E, K, buf, base, i, j, d0, d1, d2, d3):
         return out == ref
 
 
+def body_regrow(E, buf, base, d0, d1, d2, d3, d4, d5):
+    """batch 1 is finished; a second worker grows it again while the reaper (wait=True) is reading:
+    a published result stays valid throughout"""
+    fn = mkfn(base)
+    with E() as env:
+        ref = combo_runner(fn, grid(2), verbosity=0)
+        crop = cp.Crop(fn=fn, name="t", parent_dir=env.parent, batchsize=2)
+        crop.sow_combos(grid(2), verbosity=0)
+        cp.grow(1, crop=crop, verbosity=0)
+        rs = None
+        if env.mode == "sym":
+            fs = env.fs
+            fs.buffered = cbool(buf)
+            basef = dict(fs.files)
+            cp.os.pid = 4300
+            fs.start_recording()
+            cp.grow(1, crop=crop, verbosity=0)              # the re-grow, recorded from the finished state
+            log = fs.stop_recording()
+            cp.os.pid = 5000
+            fs.files = dict(basef)
+            fs.begin_timeline(basef, [log], [d0, d1, d2, d3, d4, d5])
+        else:
+            from ..realsched import RealSteps
+
+            rs = RealSteps(2)
+            rs.buffered = cbool(buf)
+            rs.install(env, cp)
+            gcrop = cp.Crop(name="t", parent_dir=env.parent)
+            rs.start_writer(lambda: cp.grow(1, crop=gcrop, verbosity=0),
+                            paths={crop_dir(env) + "/results/xyz-result-1.jbdmp"})
+            rs.deltas = [int(d) for d in (d0, d1, d2, d3, d4, d5)]
+        reader = cp.Crop(name="t", parent_dir=env.parent)
+        try:
+            out = reader.reap(wait=True, clean_up=False)
+        finally:
+            if rs is not None:
+                rs.finish_all()
+        return out == ref
+
+
 def searching(body):
     """Real-mode replay: the real disk's step granularity can differ from StepFS's for a changed library, so
     if the solver's schedule itself does not fail there, a bounded family of schedules (first three
@@ -262,6 +302,10 @@ CONDS = [
                      "performs j, A finishes, B finishes (all i, j in 0..4; POSIX open-file semantics: truncation in "
                      "place, writes follow a renamed file), observed by a reap(wait=True) at every placement: the "
                      "reaper returns exactly the direct-run result") + [
+    make_cond(_G, "regrow", searching(body_regrow), "buf:bool base:int d0:int d1:int d2:int d3:int d4:int d5:int",
+              [" and ".join("0 <= d%d <= 4" % i for i in range(6))], timeout=600,
+              bounds="a finished batch grown again by a second worker while reap(wait=True) reads it: every "
+                     "placement of the reader's observations relative to the second grower's steps"),
     make_cond(_G, "wait_k3", body_wait, "nb:int base:int " + _D, ["1 <= nb <= 2", _DR], fixed=dict(per=1, K=3),
               timeout=1800, tiers=("thorough",), bounds="as wait/wait2 with K=3 chunks"),
 ]
